@@ -641,7 +641,13 @@ class Process:
             # have been reused by another process. Process identity /
             # uniqueness over time is guaranteed by (PID + creation
             # time) and that is verified in __eq__.
-            self._pid_reused = self != Process(self.pid)
+            other = Process(self.pid)
+            if other._ident[1] is None and self._ident[1] is not None:
+                # The creation time could not be read this time (e.g.
+                # AccessDenied): the PID exists and nothing says it
+                # was reused.
+                return True
+            self._pid_reused = self != other
             if self._pid_reused:
                 _pids_reused.add(self.pid)
                 raise NoSuchProcess(self.pid)
